@@ -18,7 +18,7 @@ import ast
 from .. import ir
 from ..paths import walk
 from ..report import AnalysisError
-from .common import const_value, substitute
+from .common import const_value, substitute, gate_on
 from . import npapi
 
 META = {
@@ -149,8 +149,8 @@ def _inputs(run, prog, W):
     x = ("param", [a.arg for a in fn.args.args][1])
     proj = lambda src, lid: ("comp", "dict", lid, names, ("elem", lid), ("sub", src, ("elem", lid)), ())
     gates = [t for t in ir.subterms(s.ret) if t[0] == "gate"]
-    ok = len(gates) == 1 and gates[0][1] == has and gates[0][3] == x and gates[0][2][0] == "comp" and \
-        gates[0][2] == proj(x, gates[0][2][2])
+    sel = gate_on(gates[0], has) if len(gates) == 1 else None
+    ok = sel is not None and sel[1] == x and sel[0][0] == "comp" and sel[0] == proj(x, sel[0][2])
     shape_ok = s.ret[0] == "res" and s.ret[2] == ".reshape" and s.ret[3][1:] == (("const", 1), ("const", -1))
     run.check(ok and shape_ok, "INPUT", "1d", f"{s.path}:{s.fn.lineno}", fq, f"1d input {ir.show_nl(s.ret)[:140]}",
               "a single dict must be projected on feature_names (in that order) exactly when feature_names is given and "
@@ -169,14 +169,15 @@ def _inputs(run, prog, W):
         lp = apps[0][1].loops[0]
         row_src = ("sub", xs, ("elem", lp.lid)) if lp.iter != xs else ("elem", lp.lid)
         v = apps[0][0].args[0]
-        good = v[0] == "gate" and v[1] == has and v[2][0] == "comp" and v[2][1] == "list" and v[2][3] == names and \
-            v[2][5] == ("sub", row_src, ("elem", v[2][2])) and not v[2][6] and \
-            v[3][0] == "new" and v[3][2] == "list" and v[3][3] and v[3][3][0][0] == "res" and v[3][3][0][2] == ".values" \
-            and v[3][3][0][3] == (row_src,)
+        sel = gate_on(v, has)
+        good = sel is not None and sel[0][0] == "comp" and sel[0][1] == "list" and sel[0][3] == names and \
+            sel[0][5] == ("sub", row_src, ("elem", sel[0][2])) and not sel[0][6] and \
+            sel[1][0] == "new" and sel[1][2] == "list" and sel[1][3] and sel[1][3][0][0] == "res" and \
+            sel[1][3][0][2] == ".values" and sel[1][3][0][3] == (row_src,)
         if not good:
             ok2 = False
             cond = v[1] if v[0] == "gate" else None
-            why = f"row = {ir.show_nl(v)[:160]}" if cond in (has, None) else \
+            why = f"row = {ir.show_nl(v)[:160]}" if (cond is None or sel is not None) else \
                 f"the projection is applied only when {ir.show_nl(cond)[:140]}"
     else:
         why = f"{len(apps)} append sites" + (f", guarded by {ir.show_nl(apps[0][1].guards[0])[:100]}" if apps and apps[0][1].guards else "")
